@@ -24,7 +24,7 @@
    snapshot are one association list keyed by (kind, name).  No sanitizer
    (test scopes have none), separator ".". *)
 From Coq Require Import ZArith List Bool.
-From Tally Require Import Base.Obs Model.Buckets.
+From Tally Require Import Base.ObsCore Model.Buckets.
 Import ListNotations.
 Open Scope Z_scope.
 
